@@ -19,6 +19,9 @@ func FuzzC17Sqrt(f *testing.F) {
 	for _, k := range c17Consts {
 		f.Add(be32any(hx.BigHex(k)))
 	}
+	for _, pat := range montRawPatterns() {
+		f.Add(be32any(c17Case{Kind: "montraw", Val: hx.HexBig(pat)}.value()))
+	}
 	f.Fuzz(func(t *testing.T, b []byte) {
 		if len(b) > 32 {
 			b = b[:32]
